@@ -109,6 +109,10 @@ func runInbox(c Cfg, choose vsched.Chooser) verdict {
 	// C01 at the inbox: what Invoke saw is what was pushed - nothing invented or duplicated, and each
 	// sender's messages in its own order (whatever was delivered; a loss shows as C03's verdict)
 	seen := map[int]bool{}
+	for _, m := range p.got {
+		seen[m] = true
+	}
+	dup := map[int]bool{}
 	lastOf := map[int]int{}
 	for _, m := range p.got {
 		snd, seq := m/100, m%100
@@ -116,19 +120,28 @@ func runInbox(c Cfg, choose vsched.Chooser) verdict {
 			v.c01 = fmt.Sprintf("Invoke received %d, which no sender pushed; got=%v", m, p.got)
 			break
 		}
-		if seen[m] {
+		if dup[m] {
 			v.c01 = fmt.Sprintf("message %d was handed to Invoke twice; got=%v", m, p.got)
 			break
 		}
-		seen[m] = true
+		dup[m] = true
 		if l, ok := lastOf[snd]; ok && seq < l {
 			v.c01 = fmt.Sprintf("sender %d pushed %d before %d, Invoke saw them the other way round; got=%v", snd, m, snd*100+l, p.got)
 			break
 		}
 		lastOf[snd] = seq
 	}
-	if len(p.got) != c.Senders*c.Per {
-		v.c03 = fmt.Sprintf("every thread has finished (nothing is runnable) and the started inbox rests with %d of %d accepted messages unprocessed", c.Senders*c.Per-len(p.got), c.Senders*c.Per)
+	// C03: every accepted message has been invoked (a phantom in place of a lost one does not count)
+	missing := 0
+	for snd := 0; snd < c.Senders; snd++ {
+		for seq := 0; seq < c.Per; seq++ {
+			if !seen[snd*100+seq] {
+				missing++
+			}
+		}
+	}
+	if missing > 0 {
+		v.c03 = fmt.Sprintf("every thread has finished (nothing is runnable) and the started inbox rests with %d of %d accepted messages unprocessed; invoked=%v", missing, c.Senders*c.Per, p.got)
 	}
 	return v
 }
